@@ -507,3 +507,25 @@ Proof.
     destruct (rhs_thermal_row_full R rO rI radd rmul rsub ropp Rth E i Hwf Hth) as [H _]. exact H.
 Qed.
 End ThermalText.
+
+(** an entry of the temperature row of the Jacobian: wrapped like the row itself when it is not "0.0" *)
+Section JacThermalText.
+Variable R : Type.
+Variables (rO rI : R) (radd rmul rsub : R -> R -> R) (ropp : R -> R).
+Hypothesis Rth : ring_theory rO rI radd rmul rsub ropp (@eq R).
+
+Lemma to_sterm_unspaced ts : map to_sterm (unspaced ts) = map to_sterm ts.
+Proof. unfold unspaced. rewrite map_map. apply map_ext. intros t. reflexivity. Qed.
+
+Theorem jac_thermal_text_lemma (E : env R) (i : ode_input) (col : nat) (ts : list tterm) :
+  wf_input i -> has_thermal i = true -> col < n_eqns i -> tterms_of (jac_entry i (i_nspec i) col) = Some ts ->
+  exists inner, parse (wrapped_txt (unspaced ts)) = Some (wrap_ex inner) /\
+    den R rO radd rmul rsub E inner = deqn R rO rI radd rmul ropp E col (rhs_row i (i_nspec i)).
+Proof.
+  intros Hwf Hth Hc Hts. exists (sum_ex zero_lit (map to_sterm ts)). split.
+  - rewrite parse_wrapped, to_sterm_unspaced. reflexivity.
+  - rewrite (den_sum R rO rI radd rmul rsub ropp Rth E _ _ Hts).
+    apply (jac_is_formal_derivative R rO rI radd rmul rsub ropp Rth); auto.
+    unfold n_eqns. rewrite Hth. lia.
+Qed.
+End JacThermalText.
